@@ -120,6 +120,7 @@ def tokens_for(d, rich=False):
         t += ["-" + l0 + "z", "-z" + l0]                       # undeclared letter at each end
         for ol in optletters[:2]:
             t += ["-" + l0 + ol, "-" + ol + l0]                # option letter hidden in a bundle
+            t += ["-" + l0 + ol + "=x", "-" + ol + l0 + "="]   # ... carrying an inline value
         if rich and len(letters) >= 2:
             t += ["-" + l0 + letters[1] + l0, "-" + l0 + "=" + "x", "-" + l0 + letters[1] + "=x", "-" + l0 + "-" + letters[1]]
     t += ["x", "y", "", "--", "-", "--unknown", "-z", "---x", "-=", "--=x", "-5"]
